@@ -4,7 +4,7 @@
     invariant over every schedule, history and buffer-size sequence. *)
 From Coq Require Import List NArith Arith Bool.
 From LS Require Import Faults.Resumable Faults.Upload Faults.Restore.
-From LS Require Export Faults.RProofs Faults.UProofs Faults.ResProofs.
+From LS Require Export Faults.RProofs Faults.UProofs Faults.ResProofs Faults.CProofs.
 Import ListNotations.
 
 (** C10 *)
@@ -15,9 +15,11 @@ Definition restore_ok_implies_verified := @restore_ok_implies_verified_thm.
 Definition restore_corruption := @restore_corruption_thm.
 Definition restore_detects := @restore_detects_thm.
 Definition restore_output_discipline := @restore_output_discipline_thm.
+Definition restore_integrity_failure_removes_output := @restore_integrity_failure_removes_output_thm.
 
 (** C05 *)
 Definition no_false_ack := no_false_ack_thm.
 Definition l0_gapless := l0_gapless_thm.
 Definition pos_truthful := pos_truthful_thm.
 Definition catch_up := catch_up_thm.
+Definition compact_no_partial_publish := @compact_no_partial_publish_thm.
